@@ -14,6 +14,7 @@ class Coverage:
         self.codes = {}      # code -> label
         self.hit = {}        # label -> set(lines)
         self.active = False
+        self.missing = []
 
     def watch(self, func, label=None):
         code = getattr(func, '__code__', None)
@@ -26,6 +27,15 @@ class Coverage:
         self.hit.setdefault(label, set())
         if self.active:
             sys.monitoring.set_local_events(TOOL, code, sys.monitoring.events.LINE)
+
+    def watch_attr(self, owner, name, label=None):
+        """Watch owner.<name> if it exists.  Private helpers may be renamed or removed by a refactoring: coverage of a
+        function that is gone is simply not reported (the deciding monitors do not depend on it)."""
+        func = owner.__dict__.get(name) if hasattr(owner, '__dict__') else getattr(owner, name, None)
+        if func is None:
+            self.missing.append(label or f'{getattr(owner, "__name__", owner)}.{name}')
+            return
+        self.watch(func, label or f'{getattr(owner, "__name__", owner)}.{name}')
 
     def start(self):
         mon = sys.monitoring
